@@ -93,9 +93,10 @@ class FakeProc:
                 fut.set_result(rc)
 
     def send_signal(self, sig):
-        if self.returncode is None:
-            self.kill_sent = True
-            self.world.loop.call_soon(self._exit, -int(sig))
+        if self.returncode is not None:
+            raise ProcessLookupError()  # as asyncio's process transport does once the child was reaped
+        self.kill_sent = True
+        self.world.loop.call_soon(self._exit, -int(sig))
 
     def kill(self):
         self.send_signal(signal.SIGKILL)
@@ -147,6 +148,9 @@ class World:
         import logging
 
         logging.getLogger("gwf.backends.local").setLevel(logging.CRITICAL + 10)
+        import warnings
+
+        warnings.simplefilter("ignore", RuntimeWarning)  # "coroutine was never awaited" from faulted tasks
         self.cores = cores
         self.loop = VLoop()
         self.loop.set_exception_handler(lambda loop, ctx: None)
@@ -271,6 +275,10 @@ class World:
         return os.path.isdir(os.path.join(self.dir, ".gwf", "logs"))
 
     def spawn(self, script, cwd):
+        if not isinstance(script, (str, bytes)):
+            raise ValueError("cmd must be a string")  # what asyncio.create_subprocess_shell does
+        if cwd is not None and not isinstance(cwd, (str, bytes, os.PathLike)):
+            raise TypeError(f"expected str, bytes or os.PathLike object, not {type(cwd).__name__}")
         tm = self.by_script.get(script)
         if tm is None:
             self.unknown_spawns += 1
